@@ -115,8 +115,32 @@ def build(inst):
         p.set_depot(inst["depot"])
         for (o, d, tt, cost) in inst["arcs"]:
             p.add_arc(o, d, tt, cost)
-    p.add_time_points(list(inst["grid"]))
+    give_time_points(p, inst["grid"], len(inst["arcs"]) + len(inst["grid"]))
     return p
+
+
+def give_time_points(p, grid, selector):
+    """Hand the grid to add_time_points in one of the containers a caller may use (list, tuple, float64 / int64 ndarray;
+    chosen deterministically from the instance).  An array argument is afterwards compared with what was passed (the call
+    must not reorder the caller's data: `p.vq_grid_modified`) and then overwritten by the caller (buffer re-use): the object
+    must keep the grid it was given."""
+    import numpy as np
+    grid = list(grid)
+    k = selector % 4
+    p.vq_grid_modified = None
+    if k == 0:
+        p.add_time_points(list(grid))
+    elif k == 1:
+        p.add_time_points(tuple(grid))
+    else:
+        integral = all(float(t) == int(t) for t in grid)
+        arr = np.array(grid, dtype=np.int64 if (k == 3 and integral) else float)
+        before = arr.copy()
+        p.add_time_points(arr)
+        if not np.array_equal(arr, before):
+            p.vq_grid_modified = f"add_time_points reordered / changed the caller's array {before.tolist()} into {arr.tolist()}"
+        arr *= 0          # the caller re-uses its buffer
+        arr += 977
 
 
 def described_graph(inst):
